@@ -56,6 +56,7 @@ func (x *Exec) call(fr *Frame, st *State, in ssa.CallInstruction, pos token.Pos)
 	fv := x.val(fr, c.Value)
 	if fv.K == KFunc && fv.Fn == nil && fv.Term != nil && x.pureFuncType(c.Value.Type()) {
 		x.safetyOblige(fr, st, "nilfunc", "call of nil func "+exprText(c.Value), Neq(fv.Term, x.null()), pos)
+		x.lawState = st
 		return x.pureFuncCall(fv, c.Value.Type(), args, resT)
 	}
 	if fv.K == KFunc && fv.Fn != nil {
@@ -138,6 +139,20 @@ func (x *Exec) freshResult(st *State, t types.Type, prefix string) *Value {
 }
 
 func (x *Exec) invoke(fr *Frame, st *State, recv *Value, m *types.Func, args []*Value, resT types.Type, pos token.Pos) *Value {
+	r := x.invoke0(fr, st, recv, m, args, resT, pos)
+	if r != nil && x.retCells != nil {
+		for _, k := range []string{shortType(recv.T) + "." + m.Name(), m.Name()} {
+			if c, ok := x.retCells[k]; ok {
+				c.T = r.T
+				st.cells[c] = r
+				x.cellsW[c] = true
+			}
+		}
+	}
+	return r
+}
+
+func (x *Exec) invoke0(fr *Frame, st *State, recv *Value, m *types.Func, args []*Value, resT types.Type, pos token.Pos) *Value {
 	if recv.K != KIface {
 		failf("invoke on non-interface")
 	}
@@ -302,7 +317,9 @@ func (x *Exec) bindResults(c *Contract, fn *ssa.Function, vars map[string]*Value
 	} else {
 		rs = []*Value{res}
 	}
-	vars["result"] = res
+	if _, taken := vars["result"]; !taken {
+		vars["result"] = res
+	}
 	if len(c.Results) > 0 {
 		for i, n := range c.Results {
 			if i < len(rs) {
@@ -388,6 +405,9 @@ func (x *Exec) applyContract(fr *Frame, st *State, c *Contract, fn *ssa.Function
 	}
 	x.bindResults(c, fn, post.vars, res, sig)
 	for _, e := range c.Ensures {
+		if exprUsesGhost(e.E) {
+			continue // clauses about the callee's own calls (called / ret) are only checked, never assumed by callers
+		}
 		t := x.guardedEval(func() *Term { return post.evalBool(e.E) }, c, e)
 		x.assume(st, t)
 	}
@@ -565,6 +585,9 @@ func (x *Exec) evalClause(fr *Frame, c Clause, cur, old *State, extra map[string
 		vars[fv.Name()] = v
 	}
 	for k, v := range extra {
+		if _, isParam := vars[k]; isParam && k == "result" {
+			continue // a parameter called "result" keeps its meaning
+		}
 		vars[k] = v
 	}
 	env := &SpecEnv{x: x, vars: vars, cur: cur, old: old, pkg: x.pkgOfFn(fr.fn), fr: fr}
@@ -823,6 +846,19 @@ func (x *Exec) pureFuncCall(fv *Value, t types.Type, args []*Value, resT types.T
 	})
 	x.facts = append(x.facts, x.typeInv(v))
 	x.boundRefs(v, x.allocNow())
+	if law, ok := x.db.FuncTypeLaws[name]; ok && x.lawState != nil && !termsHaveBoundVar(ts) {
+		env := &SpecEnv{x: x, vars: map[string]*Value{"result": v}, cur: x.lawState, old: x.lawState}
+		func() {
+			defer func() {
+				if r := recover(); r != nil {
+					if _, isSpec := r.(specErr); !isSpec {
+						panic(r)
+					}
+				}
+			}()
+			x.facts = append(x.facts, env.evalBool(law))
+		}()
+	}
 	return v
 }
 
@@ -865,4 +901,19 @@ func (x *Exec) ifaceCallSiteObligations(fr *Frame, st *State, recv *Value, m *ty
 			}
 		}
 	}
+}
+
+func exprUsesGhost(e *Expr) bool {
+	if e == nil {
+		return false
+	}
+	if e.Op == "call" && e.Args[0].Op == "ident" && (e.Args[0].Name == "called" || e.Args[0].Name == "ret") {
+		return true
+	}
+	for _, a := range e.Args {
+		if exprUsesGhost(a) {
+			return true
+		}
+	}
+	return false
 }
